@@ -103,8 +103,11 @@ CLAIMS: dict[str, tuple[str, str, str, str]] = {
         "(without html_block/html_inline tokens no piece is raw: every input-derived character is escaped), "
         "vocab/vocab_fixed (tag and attribute names come only from token.tag / attribute keys, never from "
         "content), and the T1 obligations table_tags/table_keys over the vocabulary scanned from the current "
-        "source. PARTIAL: 'html off => the parser emits no html token and only vocabulary tags' is carried by "
-        "T1 + its dynamic twin, not by a parser theorem; proper nesting of output tags is decided by the "
+        "source; xmini_no_html (Props/C04b.lean, from C10.xmini_provenance): with the html option off the modelled inline "
+        "sub-parser (text, newline, escape, backticks, strikethrough, emphasis, autolink, html_inline, entity; regular "
+        "expressions translated from the live pattern objects) emits no html_inline token, for every source, rule subset and "
+        "maxNesting. PARTIAL: for html_block and the rules outside the sub-parser 'html off => no html token and only vocabulary "
+        "tags' is carried by T1 + its dynamic twin, not by a parser theorem; proper nesting of output tags is decided by the "
         "output lexer on the implementation (incl. a bounded-exhaustive delimiter sweep), not proved. Tie: "
         "renderer model vs real RendererHTML on generated streams/configurations, escapeHtml exhaustively per "
         "character.",
@@ -118,8 +121,13 @@ CLAIMS: dict[str, tuple[str, str, str, str]] = {
         "reads it — controls/spaces stripped, tab/LF/CR dropped, scheme case-insensitive — has no blacklisted "
         "scheme unless it is a whitelisted data:image URL, for every reformat step in front of encode), T1 "
         "obligations dangerous_covered/good_kinds/default_chars_safe over tables extracted from the live "
-        "regexes. PARTIAL: 'every href/src the parser stores went through normalizeLink+validateLink' is not a "
-        "theorem of an inline-parser model (oracle on tokens and rendered attributes + advisory AST scan); the "
+        "regexes; xmini_hrefs (Props/C05b.lean): in the modelled inline sub-parser (nine of the twelve inline rules, AUTOLINK_RE / "
+        "EMAIL_RE translated from the live pattern objects and run in backtracking order) every link_open of the output carries "
+        "exactly href = normalizeLink(url) for a url validateLink accepted — URL-safe ASCII, no dangerous scheme as a browser "
+        "reads it — for every source, rule subset, maxNesting and mdurl reformatting; a rejected autolink pushes nothing (the "
+        "text stays). PARTIAL: for link, image, reference and linkify 'every href/src the parser stores went through "
+        "normalizeLink+validateLink' is not a "
+        "theorem (oracle on tokens and rendered attributes + advisory AST scan); the "
         "linkifier clause cannot be run (dependency absent). Tie: encode per code point and on %xx strings, "
         "validateLink on normalised strings, browserScheme twin.",
         NOTE + "mdurl.parse/format and punycode are an external parameter (theorems hold for every value).",
@@ -204,8 +212,12 @@ CLAIMS: dict[str, tuple[str, str, str, str]] = {
         "`lblock`, 3.5k/100k documents). On the inline side the contracts are relative to pos < posMax <= len(src) and proved for "
         "text, newline, escape and backticks (closer cache and whole-source search included), giving imini_total for that inline "
         "sub-parser under every rule subset (Props/C01e.lean; tie: `inline`); emini_total (Props/C01f.lean) adds the emphasis rule with "
-        "balance_pairs and its post-processing, smini_total the strikethrough rule as well, for every classification of punctuation and white space. "
-        "MISSING: for the other rules (table, reference, html_block, lheading, most inline rules) the "
+        "balance_pairs and its post-processing, smini_total the strikethrough rule as well, for every classification of punctuation and white space; "
+        "xmini_total (Props/C01g.lean) adds autolink, html_inline and entity, whose regular expressions are translated from the live pattern "
+        "objects on every run (harness/gen_regex.py -> MdIt/Generated/Regex.lean, run by Rx.ends in Python's backtracking order; T1 obligations: "
+        "none of them matches the empty string, DIGITAL_RE matches only what int() accepts), for every value of the external functions (entity "
+        "table, mdurl reformatting, normalizeLinkText, html option): nine of the twelve inline rules (tie: `inlinex` + regex sub-tie `rx`). "
+        "MISSING: for the other rules (table, reference, html_block, lheading; link, image, linkify) the "
         "contracts stay hypotheses, monitored on every "
         "call of every real rule (harness/monitor.py, ~47k rule calls per quick run); renderer/CLI totality "
         "and the CPython stack limit by oracle (time-limited sweeps: random x configurations, bounded-exhaustive "
@@ -255,7 +267,11 @@ CLAIMS: dict[str, tuple[str, str, str, str]] = {
         "assignment on one backing dict), definition_renders_empty; mini_provenance / mini_no_hr / mini_no_code / mini_zero "
         "(Props/C10b: in the modelled sub-parser every token kind comes from an enabled rule, under all 16 rule subsets; "
         "Props/C10c q_provenance/q_no_hr: the same with block quotes nested to any depth; Props/C10d l_provenance/l_no_hr/"
-        "l_no_fence: with lists as well). "
+        "l_no_fence: with lists as well); on the inline side xmini_provenance / xmini_switches (Props/C10e.lean): every token of the "
+        "modelled inline sub-parser (nine rules, both post-processing rules, fragments_join) is accounted for by an enabled rule — "
+        "no code span without backticks, no s/em/strong without strikethrough/emphasis, no link without autolink, no raw HTML without "
+        "html_inline and the html option, no text_special without escape or entity — by a generic engine (IAdds: a rule only appends "
+        "tokens of its own kind; the loop and the second chain keep any token predicate closed under re-levelling and retyping). "
         "MISSING: provenance for the other rules and the "
         "conservative-extension clause need per-rule models: decided by the oracle (token kinds under random rule subsets; "
         "table/strikethrough on vs off on trigger-free inputs; definition options erase to the plain parse, env and HTML equal; "
